@@ -511,8 +511,12 @@ class Impl(object):
                     texts.append(v)
             self.bystander(texts)
             WRITE_LOG[:], FULL_LOG[:], PHYS_LOG[:] = saved
+        # the limit is on the CPU time of this process (a walk that loops for ever burns it), so that a loaded machine cannot
+        # turn a slow request into a "Timeout" answer; a generous wall-clock limit stays as a backstop
+        signal.signal(signal.SIGPROF, _on_alarm)
         signal.signal(signal.SIGALRM, _on_alarm)
-        signal.setitimer(signal.ITIMER_REAL, OP_TIMEOUT)
+        signal.setitimer(signal.ITIMER_PROF, OP_TIMEOUT)
+        signal.setitimer(signal.ITIMER_REAL, OP_TIMEOUT * 30)
         try:
             ans = self._exec(line.strip().split(" "))
         except TraphException:
@@ -525,6 +529,7 @@ class Impl(object):
         except Exception as e:  # noqa
             ans = "err other " + type(e).__name__
         finally:
+            signal.setitimer(signal.ITIMER_PROF, 0)
             signal.setitimer(signal.ITIMER_REAL, 0)
         log = list(WRITE_LOG)
         return ans, len(log), writes_fingerprint(log)
